@@ -11,6 +11,7 @@ import (
 	"github.com/cloudwego/kitex/client"
 	"github.com/cloudwego/kitex/pkg/circuitbreak"
 	"github.com/cloudwego/kitex/pkg/limit"
+	"github.com/cloudwego/kitex/pkg/retry"
 	"github.com/cloudwego/kitex/pkg/utils"
 	"github.com/cloudwego/kitex/server"
 	v3clusterpb "github.com/envoyproxy/go-control-plane/envoy/config/cluster/v3"
@@ -82,23 +83,38 @@ func runC16(c *ctx) {
 		}
 		w.settle()
 		nUpd := 2 + r.intn(5)
-		registerAt := 0
-		if r.chance(40) {
-			registerAt = 1 + r.intn(nUpd)
+		// one or two breakers on the same manager (one per client suite of the process), each created before the
+		// first update or after some of them; each is judged on its own
+		type breaker struct {
+			registerAt int
+			suite      *circuitbreak.CBSuite
+			obs        []interface{}
 		}
-		var suite *circuitbreak.CBSuite
-		register := func() {
+		brs := []*breaker{{}}
+		if r.chance(40) {
+			brs[0].registerAt = 1 + r.intn(nUpd)
+		}
+		if r.chance(50) {
+			b2 := &breaker{}
+			if r.chance(50) {
+				b2.registerAt = 1 + r.intn(nUpd)
+			}
+			brs = append(brs, b2)
+			c.count("two-breakers", 1)
+		}
+		register := func(b *breaker) {
 			o := &client.Options{}
 			xdssuite.NewCircuitBreaker(xdssuite.WithServiceCircuitBreak(true)).F(o, &utils.Slice{})
-			suite = o.CBSuite
+			b.suite = o.CBSuite
 		}
 		var updates []interface{}
-		var obs []interface{}
 		for u := 0; u < nUpd; u++ {
-			if u == registerAt {
-				register()
-				if u > 0 {
-					obs[len(obs)-1].(obj)["afterRegister"] = dumpCB(suite)
+			for _, b := range brs {
+				if u == b.registerAt {
+					register(b)
+					if u > 0 {
+						b.obs[len(b.obs)-1].(obj)["afterRegister"] = dumpCB(b.suite)
+					}
 				}
 			}
 			var anys []*anypb.Any
@@ -124,21 +140,27 @@ func runC16(c *ctx) {
 			}
 			w.push(mkResp(xdsresource.ClusterTypeURL, fmt.Sprintf("v%d", u+1), fmt.Sprintf("n%d", u+1), anys))
 			updates = append(updates, uj)
-			if suite != nil {
-				obs = append(obs, obj{"cb": dumpCB(suite)})
-			} else {
-				obs = append(obs, obj{"cb": nil})
+			for _, b := range brs {
+				if b.suite != nil {
+					b.obs = append(b.obs, obj{"cb": dumpCB(b.suite)})
+				} else {
+					b.obs = append(b.obs, obj{"cb": nil})
+				}
 			}
 		}
-		if registerAt == nUpd {
-			register()
-			obs[len(obs)-1].(obj)["afterRegister"] = dumpCB(suite)
+		for _, b := range brs {
+			if b.registerAt == nUpd {
+				register(b)
+				b.obs[len(b.obs)-1].(obj)["afterRegister"] = dumpCB(b.suite)
+			}
 		}
 		c.count("updates", nUpd)
-		if registerAt > 0 {
-			c.count("late-registration", 1)
+		for k, b := range brs {
+			if b.registerAt > 0 {
+				c.count("late-registration", 1)
+			}
+			c.emit(obj{"op": "cb", "breaker": k + 1, "breakers": len(brs), "registerAt": b.registerAt, "updates": updates, "obs": b.obs})
 		}
-		c.emit(obj{"op": "cb", "registerAt": registerAt, "updates": updates, "obs": obs})
 		w.close()
 	}
 }
@@ -259,14 +281,43 @@ func runC17(c *ctx) {
 			w.m.VerifWatch(xdsresource.RouteConfigType, nm, false)
 		}
 		w.settle()
-		o := &client.Options{}
-		xdssuite.NewRetryPolicy().F(o, &utils.Slice{})
-		rc := o.RetryContainer
 		nUpd := 2 + r.intn(5)
+		// one or two retry containers on the same manager (one per client suite), each created before the first update
+		// or after some of them (the registration replays the cached tables); each is judged on its own
+		type container struct {
+			registerAt int
+			rc         *retry.Container
+			obs        []interface{}
+		}
+		cts := []*container{{}}
+		if r.chance(30) {
+			cts[0].registerAt = 1 + r.intn(nUpd)
+		}
+		if r.chance(40) {
+			c2 := &container{}
+			if r.chance(50) {
+				c2.registerAt = 1 + r.intn(nUpd)
+			}
+			cts = append(cts, c2)
+			c.count("two-containers", 1)
+		}
+		register := func(ct *container) {
+			o := &client.Options{}
+			xdssuite.NewRetryPolicy().F(o, &utils.Slice{})
+			ct.rc = o.RetryContainer
+		}
 		var updates []interface{}
-		var obs []interface{}
 		gen := 0
+		past := map[string][][]*gRetryRoute{}
 		for u := 0; u < nUpd; u++ {
+			for _, ct := range cts {
+				if u == ct.registerAt {
+					register(ct)
+					if u > 0 {
+						ct.obs[len(ct.obs)-1].(obj)["afterRegister"] = dumpRetry(ct.rc.Dump())
+					}
+				}
+			}
 			var anys []*anypb.Any
 			var uj []interface{}
 			for _, tn := range tables {
@@ -280,6 +331,13 @@ func runC17(c *ctx) {
 				gen++
 				var routes []*gRetryRoute
 				nr := r.intn(3)
+				if prevGens := past[tn]; len(prevGens) > 0 && r.chance(35) {
+					// an earlier generation of this table comes back unchanged (same clusters, same policies): what was
+					// deleted in between has to be installed again
+					routes = prevGens[r.intn(len(prevGens))]
+					nr = 0
+					c.count("table-generation-returns", 1)
+				}
 				for k := 0; k < nr; k++ {
 					g := &gRetryRoute{NumRetries: r.intn(6), PerTryMs: []int{0, 10, 100, 250}[r.intn(4)],
 						ErrRate: []string{"0.1", "0.2", "0.25", "0.3"}[r.intn(4)]}
@@ -312,6 +370,7 @@ func runC17(c *ctx) {
 					}
 					routes = append(routes, g)
 				}
+				past[tn] = append(past[tn], routes)
 				rcfg := &v3routepb.RouteConfiguration{Name: tn}
 				vh := &v3routepb.VirtualHost{Name: "vh"}
 				rj := make([]interface{}, 0, len(routes))
@@ -328,10 +387,27 @@ func runC17(c *ctx) {
 			}
 			w.push(mkResp(xdsresource.RouteTypeURL, fmt.Sprintf("v%d", u+1), fmt.Sprintf("n%d", u+1), anys))
 			updates = append(updates, uj)
-			obs = append(obs, obj{"retry": dumpRetry(rc.Dump())})
+			for _, ct := range cts {
+				if ct.rc != nil {
+					ct.obs = append(ct.obs, obj{"retry": dumpRetry(ct.rc.Dump())})
+				} else {
+					ct.obs = append(ct.obs, obj{"retry": nil})
+				}
+			}
+		}
+		for _, ct := range cts {
+			if ct.registerAt == nUpd {
+				register(ct)
+				ct.obs[len(ct.obs)-1].(obj)["afterRegister"] = dumpRetry(ct.rc.Dump())
+			}
 		}
 		c.count("updates", nUpd)
-		c.emit(obj{"op": "retry", "updates": updates, "obs": obs})
+		for k, ct := range cts {
+			if ct.registerAt > 0 {
+				c.count("late-registration", 1)
+			}
+			c.emit(obj{"op": "retry", "container": k + 1, "containers": len(cts), "registerAt": ct.registerAt, "updates": updates, "obs": ct.obs})
+		}
 		w.close()
 	}
 }
